@@ -215,8 +215,6 @@ HARNESSES = [
       fns=['transcode::stream::transcode', 'transcode::stream::Visitor::visit_u64', 'transcode::stream::Visitor::visit_seq', 'transcode::stream::Visitor::visit_map'], timeout=900, min_covers=2),
     H('U-TX', 'stream', 'tx_msgpack_e2e_map', 'bounded', ['C01', 'C06'], bounds='document {"k": null}; REAL rmp_serde serializer behind the REAL transcoder',
       fns=['transcode::stream::transcode', 'transcode::stream::Visitor::visit_u64', 'transcode::stream::Visitor::visit_seq', 'transcode::stream::Visitor::visit_map'], timeout=900, min_covers=0),
-    H('U-TX', 'stream', 'tx_error_attribution_scripted_depth3', 'bounded', ['C11', 'C12', 'C01'], tier='thorough', bounds='concrete shape [ { bool: [ bool ] } ] (depth 3), every failure point of either side symbolic',
-      fns=['transcode::stream::transcode'], timeout=3600, min_covers=2),
     H('U-VAL', 'value', 'value_scalar_types_and_bits_kept', 'complete', ['C08', 'C01', 'C06'], bounds='18 visit forms (all scalar widths, char, unit, three string forms) x every 128-bit payload',
       fns=['transcode::value::Value::deserialize', 'transcode::value::Value::serialize'], timeout=900, min_covers=4),
     # ---- U-YML / U-TOML / U-JSN / U-LIB / U-EXT ----
